@@ -443,6 +443,7 @@ static bool exec_semdestroy(const std::string& prim, int ex, vt::Rng& r) {
 static bool exec_cv(const std::string& prim, int ex, vt::Rng& r) {
     bool spin = prim == "cvspin";
     mutex mtx; spinlock spl; condition_variable cv;
+    vtp::reg().set(&mtx, 200); vtp::reg().set(&cv, 201);
     int nth = 2 + (int)r.below(g_threads - 1);
     int nvc = 1 + (int)r.below(g_vcpus);
     vt::Ev("Reset").s("prim", prim).i("ex", ex).i("n", nth).i("vcpus", nvc).b("spin", spin);
@@ -461,6 +462,9 @@ static bool exec_cv(const std::string& prim, int ex, vt::Rng& r) {
                 if (waiter && rr.below(10) < 7) {
                     lock();
                     vt::Ev("Acq").i("t", w->id);
+                    // hold the lock for a moment before waiting, so that notifiers queue up on it (mutex flavour: may sleep)
+                    if (!spin && rr.coin(50)) { if (rr.coin(50)) thread_usleep(30 + rr.below(150)); else thread_yield(); }
+                    else if (rr.coin(30)) { for (volatile int i = 0; i < (int)rr.below(20000); i++) {} }
                     int64_t us; int kind = (int)rr.below(10) < 6 ? TO_INF : TO_SHORT;
                     uint64_t t0 = photon::__update_now();
                     Timeout t = mk_timeout(kind, rr, &us);
@@ -918,6 +922,7 @@ static bool exec_conduct(const std::string& prim, int ex, vt::Rng& r, const std:
     Conductor C; C.kind = prim.substr(1);      // cmutex, crw, cqrw, csem, ccv, ccvspin
     mutex m0((uint16_t)(r.coin(50) ? 0 : 2)); rwlock rw; qrwlock qrw; semaphore sem(r.below(2)); condition_variable cv; spinlock spl; mutex cvm;
     C.mtx = &m0; C.rw = &rw; C.qrw = &qrw; C.sem = &sem; C.cv = &cv; C.spl = &spl; C.cvm = &cvm;
+    if (C.kind == "cv" || C.kind == "cvspin") { vtp::reg().set(&cvm, 200); vtp::reg().set(&cv, 201); }
     int n = 3 + (int)r.below(2);
     if (script) { n = 0; for (char ch : *script) if (ch >= '1' && ch <= '9') n = std::max(n, ch - '0'); if (n < 2) n = 2; }
     if (C.kind == "mutex") { vtp::reg().set(&m0, 200); vt::Ev("Reset").s("prim", prim).i("ex", ex).i("n", n).i("vcpus", 1).i("retries", 0).i("cont", 0).b("rec", false).b("timed", true); }
